@@ -551,7 +551,17 @@ def sample_inputs(rng):
             out.append((mk(vals), size))
             if rng.random() < 0.4:
                 out.append(([int(4 * v) for v in vals], size))
+    # multi-dimensional non-random values: "length" is the length of the outer sequence
+    # (travel_times tables are such values); these go through the oracle only
+    nested = [np.zeros((3, 2)), np.ones((1, 3)), np.arange(4.0).reshape(2, 2), [[1, 2], [3, 4]], ((1, 2, 3),), [[0.5]], np.zeros((2, 3))]
+    for v in nested:
+        for size in range(0, 7):
+            out.append((v, size))
     return out
+
+
+def is_nested(v):
+    return (not np.isscalar(v)) and len(v) > 0 and not np.isscalar(v[0])
 
 
 def sample_observe(v, size):
@@ -847,6 +857,8 @@ def run(ctx):
             ctx.violation(f"oracle/sample/{f[0]}", f[1],
                           {"value": repr(v), "type": type(v).__name__, "size": size, "observed": repr(obs[1:]),
                            "python": "vrpqubo.examples.mirp_random.sample(value, size)"}, True)
+        if is_nested(v):
+            continue
         hcases.append((v, size, obs))
         hterms.append(lit.tup(harg_lit(v), lit.nat(size), "[]", hobs_lit(v, obs), "[]"))
     # samplers through sample()
